@@ -166,6 +166,68 @@ class SymKernel(BaseKernel):
     def is_sym(self, x):
         return isinstance(x, Sym) and not x.is_const()
 
+    def system_equiv(self, A_code, rhs_code, A_spec, rhs_spec, dx, label, fixed_idx=()):
+        """The linear system the code handed to the solver is EQUIVALENT to the spec system (same solution set):
+
+          1. every unknown that the spec pins to zero is forced to zero by the code's equations
+             (dx_j in the Q-span of the code equations);
+          2. with those unknowns substituted by 0, every spec equation is in the Q-span of the code equations,
+          3. and every code equation is in the Q-span of the spec equations.
+
+        Candidate cofactors come from exact linear algebra over Q and are verified symbolically (normal form of the
+        residual is the zero polynomial modulo the rewrite rules), so a wrong guess cannot produce a proof.  Stated this
+        way a fixed vertex's block may be any non-singular matrix, rows may be scaled, coupling blocks may be stored or
+        not -- none of which changes the step -- while a lost contribution, a missing transpose or a wrong slice breaks a
+        direction."""
+        st = self.st
+        t0 = time.time()
+        dxs = [Sym.lift(d) for d in dx]
+        n = len(dxs)
+
+        def eqs(A, rhs):
+            out = []
+            for i in range(len(A)):
+                acc = Sym(0)
+                for j in range(n):
+                    a = Sym.lift(A[i][j])
+                    if not a.n.is_zero():
+                        acc = acc + a * dxs[j]
+                acc = acc - Sym.lift(rhs[i])
+                if acc.d is not None:
+                    raise Unsupported("rational entries in a linear system")
+                out.append(P.nf(acc.n))
+            return out
+        code = eqs(A_code, rhs_code)
+        spec = eqs(A_spec, rhs_spec)
+        bad = []
+        zero = []
+        for j in fixed_idx:
+            if linear_membership(st, dxs[j].n, code):
+                zero.append(j)
+            else:
+                bad.append("the code's system does not force unknown %d (pinned to zero by the spec) to zero" % j)
+        sub = {}
+        for j in zero:
+            (m, _), = dxs[j].n.t.items()
+            sub[m[0][0]] = 0
+        code0 = [P.nf(p.subs(sub)) for p in code]
+        spec0 = [P.nf(p.subs(sub)) for p in spec]
+        code0nz = [p for p in code0 if not p.is_zero()]
+        spec0nz = [p for p in spec0 if not p.is_zero()]
+        for i, p in enumerate(spec0):
+            if not p.is_zero() and not linear_membership(st, p, code0nz):
+                bad.append("spec equation %d does not follow from the code's system" % i)
+        for i, p in enumerate(code0):
+            if not p.is_zero() and not linear_membership(st, p, spec0nz):
+                bad.append("code equation %d does not follow from the spec system" % i)
+        g = {"label": label, "kind": "system", "n": len(code) + len(spec) + len(list(fixed_idx)), "backend": "nf+linear-cofactors",
+             "status": "failed" if bad else "proved", "time_s": round(time.time() - t0, 3),
+             "max_terms": max([len(p) for p in code + spec] or [0])}
+        if bad:
+            g["detail"] = "; ".join(bad[:6])
+        self.goals.append(g)
+        return not bad
+
     # ---- discharge
     def finish(self, cert_sink=None):
         st = self.st
@@ -263,9 +325,11 @@ def linear_membership(st, target, gens, points=3, seed=1):
     import random
     gens = [g.n if isinstance(g, Sym) else g for g in gens]
     gens = [P.nf(g) for g in gens if not g.is_zero()]
+    target = P.nf(target)
+    if target.is_zero():
+        return True
     if not gens:
         return False
-    target = P.nf(target)
     # monomial basis
     monos = set(target.t)
     for g in gens:
